@@ -3,7 +3,7 @@
 Domain: a valid request (Content-Length / chunked / no body) delivered up to a generated *crash
 point* (any byte offset of headers or body, or the complete request), under a generated
 segmentation, followed by a fault {FIN, RST on read, ERROR readiness event, body_timeout expiry on
-the virtual clock, none}; delegate kinds: synchronous, headers_received / data_received returning
+the virtual clock, the server's own shutdown (close_all_connections() while the delegate is still busy), none}; delegate kinds: synchronous, headers_received / data_received returning
 futures that the harness resolves immediately or only after the fault (so the close lands on a
 pending await), response written at once / deferred until after the fault / never, with partial
 write credit (response-phase disconnect mid-write); inner application = raw delegate or a real
@@ -24,6 +24,9 @@ Sensitivity (quick tier, scratch copies; all caught):
   serving loop hanging after an application exception (_QuietException) ; _on_connection_close not resolving _finish_future.
   Seeded: need_delegate_close cleared when the request is fully read although finish() was skipped (delegate answered
   early) -> caught after adding delegates that respond in headers_received/data_received (neither_finish_nor_close).
+  Seeded (round 6): the `not self.stream.closed()` guard before `await self._finish_future` narrowed to the client role ->
+  missed until the "shutdown" fault existed (server closed while data_received is held, application never answers:
+  close_all_connections_never_completes).
 """
 import asyncio
 
@@ -69,7 +72,7 @@ def case_s(draw):
     respond = draw(st.sampled_from(["immediate", "immediate", "deferred", "never", "in_headers", "in_data"]))
     where = draw(st.sampled_from(["headers", "body", "body", "complete", "complete", "any"]))
     frac = draw(st.integers(0, 1000))
-    event = draw(st.sampled_from(["fin", "rst", "error", "timeout", "timeout", "none", "fin", "rst"]))
+    event = draw(st.sampled_from(["fin", "rst", "error", "timeout", "timeout", "none", "fin", "rst", "shutdown"]))
     segs = draw(st.one_of(st.just([100000]), st.lists(st.integers(1, 200), min_size=1, max_size=20),
                           st.lists(st.integers(1, 5), min_size=5, max_size=40)))
     write_credit = draw(st.one_of(st.none(), st.none(), st.integers(0, 120)))
@@ -286,6 +289,11 @@ def run_scenario(case):
             sess.stream.feed_reset()
         elif ev == "error":
             sess.stream.post_error(OSError(104, "injected error event"))
+        task = None
+        if ev == "shutdown":
+            # the fault is the server's own shutdown: close_all_connections() lands on whatever the connection
+            # is waiting for (a held delegate future, a deferred response, the next read); it must still complete
+            task = asyncio.ensure_future(sess.server.close_all_connections())
         await sess.settle()
         if ev == "timeout":
             await sess.advance(6.0)
@@ -301,7 +309,8 @@ def run_scenario(case):
             respond(conn)
         await sess.settle()
         mid = {"closed": sess.closed, "records": [dict(r, chunks=list(r["chunks"])) for r in st_["records"]]}
-        task = asyncio.ensure_future(sess.server.close_all_connections())
+        if task is None:
+            task = asyncio.ensure_future(sess.server.close_all_connections())
         for _ in range(5):
             await sess.settle()
             await resolve_held(sess)
@@ -426,8 +435,12 @@ def offsets_cases(n_requests):
                             segs=[7], write_credit=None, resp_size=10, chunk_size=16)
                 head, payload = build_request(base)
                 for cut in range(0, len(head) + len(payload) + 1):
-                    for event in ("fin", "rst", "error"):
+                    for event in ("fin", "rst", "error") + (("shutdown",) if hold == "hold" else ()):
                         yield dict(base, cut=cut, event=event)
+                if hold == "hold":
+                    # server shut down while the delegate is still busy and the application never answers
+                    for cut in range(len(head), len(head) + len(payload) + 1):
+                        yield dict(base, respond="never", cut=cut, event="shutdown")
                 if layer == "raw":
                     # the application answers before the request is fully read; every offset, no fault and FIN
                     for early in ("in_headers", "in_data"):
